@@ -203,3 +203,36 @@ func genHTTP(r *rand.Rand, cid int, gateMs int) *httpScript {
 	}
 	return s
 }
+
+// ---------- scripts of the stop phase: a callback is held, more work is queued behind it, then the engine stops ----------
+func genWSStop(r *rand.Rand, cid int, gateMs int) *wsScript {
+	s := genWS(r, cid, gateMs, false)
+	// the first data callback holds the gate; a close frame ends the script (queued behind everything else)
+	if n := len(s.Frames); n == 0 || s.Frames[n-1].Op != "close" {
+		s.Frames = append(s.Frames, frame{Op: "close", Fin: true, Seq: 1000, Size: 5})
+		s.Behav["C"] = genBehav(r)
+	}
+	s.End = "engine-stop"
+	s.CloseAt = ""
+	exp := expectedWS(s)
+	for k, b := range s.Behav {
+		b.Hold, b.Close = false, false
+		s.Behav[k] = b
+	}
+	hk := exp[1][0]
+	b := s.Behav[hk]
+	b.Hold = true
+	s.Behav[hk] = b
+	s.OpenB = behav{}
+	return s
+}
+
+func genHTTPStop(r *rand.Rand, cid int, gateMs int) *httpScript {
+	s := genHTTP(r, cid, gateMs)
+	s.End = "engine-stop"
+	for i := range s.Reqs {
+		s.Reqs[i].B.Hold = i == 0
+		s.Reqs[i].ConnClose = false
+	}
+	return s
+}
